@@ -124,8 +124,9 @@ class VersionedDataHandler:
                 casting="unsafe",
             )
 
-            # check if perc_expected_vote_corr is monotone increasing (if not, give up and don't try to estimate a margin)
-            if not np.all(np.diff(perc_expected_vote_corr) >= 0):
+            # check if the turnout is monotone increasing (if not, give up and don't try to estimate a margin); this has to
+            # look at the turnout itself: perc_expected_vote_corr is all zero when the last version has no votes
+            if not np.all(np.diff(results_turnout) >= 0):
                 return pd.DataFrame(
                     {
                         "percent_expected_vote": np.arange(101),
